@@ -220,25 +220,17 @@ func (m Mounts) GetOverlayLowerdirs() map[string]bool {
 
 
 func unescape(str string) string {
-	out := []byte(str)
-	outp := 0
-	octal := -1
-	for _, c := range out {
-		if c == '\\' {
-			octal = 0
-			continue
-		}
-		if octal > -1 {
-			if c >= '0' && c < '8' && octal < 32 {
-				octal = octal * 8 + int(c - '0')
-				continue
+	out := make([]byte, 0, len(str))
+	for p := 0; p < len(str); p++ {
+		c := str[p]
+		if c == '\\' && p + 3 < len(str) {
+			d1, d2, d3 := str[p+1] - '0', str[p+2] - '0', str[p+3] - '0'
+			if d1 < 4 && d2 < 8 && d3 < 8 {
+				c = d1 << 6 | d2 << 3 | d3
+				p += 3
 			}
-			c = byte(octal)
-			octal = -1
 		}
-		out[outp] = c
-		outp++
+		out = append(out, c)
 	}
-	return string(out[:outp])
+	return string(out)
 }
-
